@@ -1,6 +1,8 @@
 import HidVerif.Sphinx.VM
 import HidVerif.Hid.Machine
 import HidVerif.Gen.Stdlib
+import HidVerif.Sphinx.Monitor
+import HidVerif.Compiler.Templates
 open HidVerif HidVerif.Sphinx
 
 def bytesToLines (b : ByteArray) : List (List Char) := Id.run do
@@ -53,6 +55,13 @@ def runCase (c : Case) : String :=
     | .error e => s!"{c.id}\tvm\tasmerror:{e.replace "\t" " "}\t0\t0\t0\t"
     | .ok l =>
       if c.opts.contains "asmcheck" then s!"{c.id}\tvm\t{asmCheck l}\t0\t0\t0\t" else
+      if c.opts.contains "conform" then
+        let bad := Compiler.conform l
+        s!"{c.id}\tvm\t{if bad.isEmpty then "ok" else "nonconforming"}\t0\t0\t0\t{",".intercalate (bad.map (fun b => "N" ++ b.replace "," ";"))}" else
+      if c.opts.contains "mon" then
+        let r := Monitor.run l c.fuel
+        s!"{c.id}\tvm\t{VM.renderOutcome r.outcome}\t{r.steps}\t{r.backtracks}\t{r.pending}\t{VM.renderTrace r.events}"
+      else
       let r := VM.runLoaded l { fuel := c.fuel }
       s!"{c.id}\tvm\t{VM.renderOutcome r.outcome}\t{r.steps}\t{r.backtracks}\t{r.pending}\t{VM.renderTrace r.events}"
   let optNat (key : String) (dflt : Nat) : Nat :=
